@@ -144,18 +144,20 @@ func init() {
 		CaseTimeoutS:     300,
 		MinObs: func(tier string) map[string]int64 {
 			m := map[string]int64{
-				"requests":                   25000,
-				"grid_points":                c19GridPoints,
-				"served":                     3000,
-				"redirected":                 20000,
-				"sessions_minted":            300,
-				"cookies_rejected":           20000,
-				"login_attempts":             20000,
-				"login_wrong_rejected":       20000,
-				"login_right_accepted":       300,
-				"generated_password_learned": 40,
-				"single_byte_mutants":        15000,
-				"cross_instance_rejections":  100,
+				"route_level_runs":                1,
+				"route_protected_unauthenticated": 5,
+				"requests":                        25000,
+				"grid_points":                     c19GridPoints,
+				"served":                          3000,
+				"redirected":                      20000,
+				"sessions_minted":                 300,
+				"cookies_rejected":                20000,
+				"login_attempts":                  20000,
+				"login_wrong_rejected":            20000,
+				"login_right_accepted":            300,
+				"generated_password_learned":      40,
+				"single_byte_mutants":             15000,
+				"cross_instance_rejections":       100,
 			}
 			if tier == "thorough" {
 				m["random_guesses"] = 20000
@@ -165,7 +167,7 @@ func init() {
 			return m
 		},
 		Extra: func(tier string) map[string]any {
-			return map[string]any{"grid_exhaustive": true, "grid_points_planned": c19GridPoints, "route_level": "reserved for last case; not implemented in this file yet"}
+			return map[string]any{"grid_exhaustive": true, "grid_points_planned": c19GridPoints, "route_level": "last case: real cmd/shovel binary against fakepg + simnode, every registered path without and with a session (c19route.go)"}
 		},
 	})
 }
@@ -704,7 +706,7 @@ func c19Run(c *vk.Case) {
 	case c.Index == n-1:
 		// ROUTE-LEVEL HOOK (part b: real cmd/shovel binary against fakepg + simnode,
 		// every registered path without and with a session). Not implemented here.
-		c.Obs("route_level_skipped", 1)
+		c19RouteLevel(c)
 		return
 	case c.Index < c19GridChunks:
 		c19Grid(c)
